@@ -266,6 +266,40 @@ def run(ck: Check):
                     ck.violation(dict(clause="recurrence", detector=det.name, regime="huge-magnitude"),
                                  dict(what="on a finite stream of huge magnitude (its sum exceeds the binary64 range, its values, running means and statistics do not) the statistic / verdict leaves the recurrence", detector=det.name, config=cfg, stream=xs[: t + 1], step=t + 1, got=float(o[3][1]), expected=gt, drift=bool(o[0]), expected_drift=exp))
                     break
+    # (vi) the configurations built POSITIONALLY, in the documented parameter order (CUSUM: delta, lambda_, min_num_instances;
+    #      Page-Hinkley: delta, lambda_, alpha, min_num_instances; GMA: alpha, lambda_, min_num_instances), run like the ones
+    #      built by keyword.  (vii) TWO history callbacks on one detector: every sample is consumed once (deterministic)
+    from frouros.callbacks import HistoryConceptDrift as _Hist
+
+    POS = {"CUSUM": ("delta", "lambda_", "min_num_instances"), "PageHinkley": ("delta", "lambda_", "alpha", "min_num_instances"), "GeometricMovingAverage": ("alpha", "lambda_", "min_num_instances")}
+    for det in DETS:
+        cls, cfgcls = getattr(_cd, det.name), getattr(_cd, det.name + "Config")
+        cfg = dict(delta=0.01, lambda_=0.2, alpha=0.9, min_num_instances=5)
+        cfg = {k: cfg[k] for k in POS[det.name]}
+        xs = [0.0, 1.0, 0.0, 1.0] + [1.0] * 12
+        g = spec(det, cfg, xs)
+        for how in ("positional-config", "two-callbacks"):
+            try:
+                if how == "positional-config":
+                    d = cls(config=cfgcls(*[cfg[k] for k in POS[det.name]]))
+                else:
+                    d = cls(config=cfgcls(**cfg), callbacks=[_Hist(name="h1"), _Hist(name="h2")])
+                got = []
+                for x in xs:
+                    d.update(value=x)
+                    got.append((bool(d.drift), float(d.sum_), int(d.num_instances)))
+            except Exception as e:  # noqa: BLE001
+                ck.violation(dict(clause="raises", detector=det.name, scenario=how), dict(detector=det.name, config=cfg, error=repr(e)))
+                continue
+            ck.case(dict(detector=det.name, config=cfg, kind=how), nontrivial=True, key=repr((how, det.name)))
+            ck.count(how.replace("-", "_") + "_cases")
+            for t, ((dr, gs, ni), gt) in enumerate(zip(got, g)):
+                exp = (t + 1 >= cfg["min_num_instances"]) and gt > cfg["lambda_"]
+                if ni != t + 1 or not (abs(gs - gt) <= 1e-9 * max(1.0, abs(gt))) or (abs(gt - cfg["lambda_"]) > 1e-7 and dr != exp):
+                    ck.violation(dict(clause="recurrence", detector=det.name, scenario=how),
+                                 dict(what=("a configuration built positionally in the documented parameter order" if how == "positional-config" else "a detector with two history callbacks attached") + " does not follow the recurrence / verdict rule of these parameters",
+                                      detector=det.name, config=cfg, order=POS[det.name], stream=xs[: t + 1], step=t + 1, statistic=gs, expected_statistic=gt, drift=dr, expected_drift=exp, num_instances=ni))
+                    break
     models = run_models("C07", cases)
     from detectors import corr_compare
 
